@@ -140,8 +140,8 @@ class Interp:
                 if e < len(v[3]):
                     return v[3][e]
                 raise Unsupported("field %d of %r" % (e, v))
-            if v[0] == "sym":
-                return ("sym", "%s.%d" % (v[1], e))
+            if v[0] in ("sym", "k"):
+                return ("sym", "%s.%d" % (v[1], e))      # a field of an opaque value / of a named constant: opaque
             if v[0] == "tuple":
                 return v[1][e]
             raise Unsupported("field of %r" % (v,))
